@@ -1,4 +1,4 @@
-HOOK_COMMITS = ["f09e006", "b01701e", "f04332d"]
+HOOK_COMMITS = ["f09e006", "b01701e", "f04332d", "019973f"]
 
 _WIP = "check not landed yet in this revision of /verif (work in progress; see DESIGN.md section 11 for the plan)"
 NOT_APPLICABLE = {("C%02d" % i): _WIP for i in range(1, 21)}
@@ -56,7 +56,7 @@ META["C08"] = {
     "category": "proof", "design_ref": "DESIGN.md section 6, C08",
     "technique": "Coq: (1) the integrated set after delivering a merged / permuted / duplicated / re-batched collection of updates equals the one after sequential delivery (least closed set), delete-set union laws; (2) a statement-by-statement Gallina transcription of Update::merge_updates, proved to terminate on every input and to produce an update with exactly the units and delete ranges of its arguments (arguments that are views of one history), independent of order and nesting; + the extracted transcription run against merge_updates_v1 on every merge of the harness (2..5 and 22..40 arguments) + differential comparison of merge_updates / diff_updates / encode_state_vector_from_update with sequential application on real update pools, v1 and v2",
     "text": "The algebra is proved at operation-set level and for the k-way merge loop itself; the implementation's merge is compared with the transcription (same bytes) and with sequential application on pools with overlaps, duplicates, gaps, Skip and GC blocks.",
-    "note": "diff_updates and encode_state_vector_from_update are compared on the implementation only. A stash lag of the merged form is accepted only when it vanishes after delivering the whole history. Found by the transcription and repaired: the decoder order was not a total order (fd4802e: merge of more than 20 updates with Item/GC ties panicked).",
+    "note": "diff_updates and encode_state_vector_from_update are transcribed and proved as well (Crdt/Diff.v). Known finding: a diff against a vector inside a surrogate pair shifts ids. A stash lag of the merged form is accepted only when it vanishes after delivering the whole history. Found by the transcription and repaired: the decoder order was not a total order (fd4802e: merge of more than 20 updates with Item/GC ties panicked).",
 }
 META["C13"] = {
     "category": "proof", "design_ref": "DESIGN.md section 6, C13",
